@@ -65,6 +65,11 @@ func executeCompaction(db *DB) (compactionMetadata *proto.CompactionMetadata, er
 	// make sure we're always compacting with the right order in mind
 	sort.Strings(paths)
 
+	// tables that only hold dropped records are compacted too, the bloom filter needs a positive size though
+	if numRecords == 0 {
+		numRecords = 1
+	}
+
 	start := time.Now()
 	writeFolder, err := os.MkdirTemp(db.basePath, SSTableCompactionPathPrefix)
 	if err != nil {
